@@ -1163,3 +1163,114 @@ def rule_R4j(ctx, rep, config="c-lib"):
                                       "elements between the old end and the start of the walk stay uninitialised and are dereferenced when they are asked for later" % (
                                           f.name, amt, iv), where=c.where(), witness=[g.where(), c.where()])
     rep.floor("R4j", "initialising walks over the elements added to a table", n, 1)
+
+
+def rule_R4k(ctx, rep, config="c-lib"):
+    rep.rule("R4k", "a value that a loop multiplies by a constant >= 2 on every round (in signed arithmetic) and carries into the next round -- through a variable in memory "
+                    "or in a register -- grows geometrically: it overflows after at most 31 rounds, and the number of rounds of the loops of the description scanner is "
+                    "chosen by the text.  The multiplication is therefore controlled, inside the loop, by a comparison that bounds the carried value (decided for "
+                    "every such accumulation; sums with a constant step are not judged: they need 2^31 rounds)")
+    from .r5 import _controlling_conditions
+    p = ctx.prog(config)
+    n = 0
+    for f in p.m.defined():
+        loops = f.loops()
+        if not loops:
+            continue
+        for m_ in f.all_insts():
+            if not (m_.op in ("mul", "shl") and m_.d.get("nsw") and m_.ty in ("i32", "i64")):
+                continue
+            k = const_int(m_.ops[1]) if const_int(m_.ops[1]) is not None else const_int(m_.ops[0])
+            if k is None or (m_.op == "mul" and abs(k) < 2) or (m_.op == "shl" and k < 1):
+                continue
+            x = m_.ops[0] if const_int(m_.ops[1]) is not None else m_.ops[1]
+            Ls = [L for L in loops if m_.block.name in L["body"]]
+            if not Ls:
+                continue
+            L = min(Ls, key=lambda l_: len(l_["body"]))
+            # what the multiplied value is made from (inside the loop)
+            srcs, work, seen = [], [x], set()
+            while work:
+                o = strip_int_casts(f, work.pop())
+                if o.get("k") != "i" or o["v"] in seen:
+                    continue
+                seen.add(o["v"])
+                i = f.insts.get(o["v"])
+                if i is None:
+                    continue
+                if i.op == "load" or (i.op == "phi" and i.block.name == L["header"]):
+                    srcs.append(i)
+                elif i.op in ("add", "sub") and i.block.name in L["body"]:
+                    work.extend(i.ops)
+            # what the product flows into (inside the loop)
+            flows, work, seen = set([m_.id]), [m_], set()
+            while work:
+                i = work.pop()
+                for u in f.all_insts():
+                    if u.id in flows or u.block.name not in L["body"]:
+                        continue
+                    if u.op in ("add", "sub", "sext", "zext", "trunc", "phi", "select") and any(isinstance(o, dict) and o.get("k") == "i" and o.get("v") == i.id for o in (
+                            [v for (v, _) in u.d["incoming"]] if u.op == "phi" else u.ops)):
+                        flows.add(u.id)
+                        work.append(u)
+            carried = None
+            for s_ in srcs:
+                if s_.op == "phi":
+                    if any(strip_int_casts(f, v).get("v") in flows for (v, pb) in s_.d["incoming"] if pb in L["body"]):
+                        carried = ("phi", s_)
+                else:
+                    a = resolve_addr(f, s_.ops[0])
+                    for st in f.all_insts():
+                        if st.op == "store" and st.block.name in L["body"] and strip_int_casts(f, st.ops[0]).get("v") in flows:
+                            b = resolve_addr(f, st.ops[1])
+                            if a.root == b.root and [x_[:2] for x_ in a.steps if x_[0] == "f"] == [x_[:2] for x_ in b.steps if x_[0] == "f"] and a.root[0] in ("g", "alloca", "a"):
+                                carried = ("mem", s_)
+            if carried is None:
+                continue
+            n += 1
+            rep.cover(p, [f.name])
+            key = "%s/geometric-accumulation#%d" % (f.name, n)
+            guard = None
+            for (cc, pol) in _controlling_conditions(f, m_.block.name):
+                if cc.block.name not in L["body"] or cc.d["pred"] in ("eq", "ne"):
+                    continue
+                for o in cc.ops:
+                    v = f.inst(strip_int_casts(f, o))
+                    if v is None:
+                        continue
+                    if carried[0] == "phi" and v.id == carried[1].id:
+                        guard = cc
+                    elif carried[0] == "mem" and v.op == "load" and resolve_addr(f, v.ops[0]).root == resolve_addr(f, carried[1].ops[0]).root \
+                            and resolve_addr(f, v.ops[0]).steps == resolve_addr(f, carried[1].ops[0]).steps:
+                        guard = cc
+            if guard is None:
+                # a bound spelled as a compound test (`a >= M / 10 && (a > M / 10 || d > M % 10)'): a comparison of the carried value inside the loop one of whose
+                # outcomes cannot reach the multiplication in this round
+                def is_acc(o):
+                    v = f.inst(strip_int_casts(f, o))
+                    if v is None:
+                        return False
+                    if carried[0] == "phi":
+                        return v.id == carried[1].id
+                    return v.op == "load" and resolve_addr(f, v.ops[0]).root == resolve_addr(f, carried[1].ops[0]).root \
+                        and resolve_addr(f, v.ops[0]).steps == resolve_addr(f, carried[1].ops[0]).steps
+                for cc in f.all_insts():
+                    if cc.op != "icmp" or cc.block.name not in L["body"] or cc.d["pred"] in ("eq", "ne") or not any(is_acc(o) for o in cc.ops):
+                        continue
+                    t = cc.block.term
+                    if t is None or len(t.ops) != 3 or strip_int_casts(f, t.ops[0]).get("v") != cc.id:
+                        continue
+                    if not f.dominates(cc.block.name, m_.block.name) and m_.block.name not in f.reachable_from(cc.block.name, avoid=[L["header"]]):
+                        continue
+                    outs = [o["v"] for o in t.ops[1:]]
+                    if any(m_.block.name not in f.reachable_from(o, avoid=[L["header"]]) for o in outs) and \
+                            any(m_.block.name in f.reachable_from(o, avoid=[L["header"]]) for o in outs):
+                        guard = cc
+            if guard is not None:
+                rep.ok("R4k", key, sample={"multiplication": m_.where(), "bounded_by": guard.where()})
+            else:
+                rep.violation("R4k", key, "%s multiplies a value by %d on every round of a loop and carries it on, and no comparison inside the loop bounds it: signed "
+                              "overflow (undefined behaviour) after a few rounds -- in the scanner a number of more than nine digits in the description" % (
+                                  f.name, k if m_.op == "mul" else 2 ** k), where=m_.where(), witness=[m_.where()])
+    if n == 0:
+        rep.ok("R4k", "no-unbounded-geometric-accumulation", nontrivial=False)
